@@ -136,6 +136,76 @@ pub fn run(ctx: &Ctx) -> CheckResult {
     findings.extend(f_stale);
     herr.extend(h_stale);
 
+    // ---- more initial states and configurations with a reference run:
+    //  (a) outputs pre-exist as proper prefixes of themselves / as empty files (an interrupted earlier run);
+    //  (b) TRUTH_MAP_PATH, which only decompile is documented to read, is set and names maps that
+    //      redefine signatures: compile must not care;
+    //  (c) the scenario's mapfiles arrive by `#pragma mapfile` instead of -m: same output.
+    let hostile = |cmd: &str| -> (String, String) {
+        let (ext, magic) = match cmd {
+            "truanm" => ("anmm", "!anmmap"),
+            "trustd" => ("stdm", "!stdmap"),
+            "trumsg" => ("msgm", "!msgmap"),
+            _ => ("eclm", "!eclmap"),
+        };
+        let mut t = format!("{}\n!ins_signatures\n", magic);
+        for op in 0..64 {
+            t.push_str(&format!("{} s--\n", op));
+        }
+        t.push_str("!ins_names\n0 hostileZero\n1 hostileOne\n");
+        (format!("hostile-maps/any.{}", ext), t)
+    };
+    let sel: Vec<usize> = (0..bases.len()).filter(|&i| compiles[i] && (!quick || bases[i].name.contains("extra/feature") || i % 6 == (ctx.seed % 6) as usize)).collect();
+    let (_r, st_v, f_v, h_v) = par_map(ctx, &sel, |w, _, &i| {
+        let base = &bases[i];
+        for empty in [false, true] {
+            if let Some(c) = prefix_stale_case(w, base, empty) {
+                w.judge(&c);
+            }
+        }
+        // (b)
+        let mut c = base.clone();
+        let (p, t) = hostile(&base.steps[0].argv[0]);
+        c.inputs.push(crate::case::Input::text(&p, &t));
+        c.steps[0].env.push(("TRUTH_MAP_PATH".into(), "hostile-maps".into()));
+        c.oracle = "stale".into();
+        c.name = format!("{} [env TRUTH_MAP_PATH=hostile-maps]", base.name);
+        c.meta = json!({"stale": [p], "ignore_env": true, "variant": "env-insensitive"});
+        w.judge(&c);
+        // (c)
+        let argv = &base.steps[0].argv;
+        let ms: Vec<String> = argv.iter().enumerate().filter(|(k, a)| *k > 0 && argv[*k - 1] == "-m" && a.starts_with("mapfile-")).map(|(_, a)| a.clone()).collect();
+        if !ms.is_empty() {
+            let mut c = base.clone();
+            let reference_argv = c.steps[0].argv.clone();
+            let mut k = 0;
+            while k < c.steps[0].argv.len() {
+                if c.steps[0].argv[k] == "-m" && c.steps[0].argv.get(k + 1).map_or(false, |a| a.starts_with("mapfile-")) {
+                    c.steps[0].argv.drain(k..k + 2);
+                } else {
+                    k += 1;
+                }
+            }
+            let pragmas: String = ms.iter().map(|m| format!("#pragma mapfile \"{}\"\n", m)).collect();
+            let mut original = String::new();
+            for inp in c.inputs.iter_mut() {
+                if inp.path == scen::SRC {
+                    if let crate::case::Base::Text(t) = &inp.base {
+                        original = t.clone();
+                        inp.base = crate::case::Base::Text(format!("{}{}", pragmas, t));
+                    }
+                }
+            }
+            c.oracle = "stale".into();
+            c.name = format!("{} [mapfiles via #pragma instead of -m]", base.name);
+            c.meta = json!({"stale": [], "variant": "mapfile-arrival", "reference_steps": [reference_argv], "reference_source": original});
+            w.judge(&c);
+        }
+    });
+    stats.merge(st_v);
+    findings.extend(f_v);
+    herr.extend(h_v);
+
     // ---- fault campaign
     // group by format class; complete budget enumeration for a seed-rotated member of each class,
     // boundary budgets for the rest (quick: 2 members per class)
